@@ -14,6 +14,7 @@
 //                                            -> 0 k (j id)^k (the parsed values: token number, option) | 1 | 2 k <cand>* | 7 (some key not spellable)
 // <str> = len bytes.  At the end the context is dumped: size, groups (caption, option names), index entries.
 #include "common.h"
+#include <memory>
 #include <map>
 #include <set>
 #include <sstream>
@@ -158,10 +159,22 @@ static void parserSequence(Obs& o, const Po::OptionContext& ctx, const std::vect
 int main() {
 	Case c; Obs o;
 	while (readCase(c)) {
-		Po::OptionContext ctx("ctx");
+		// The context lives behind a pointer so that it can be replaced by a COPY of itself in the middle of a history: a copy (copy
+		// constructor, or copy assignment into another context) must answer every look-up like the original - long names, alias
+		// names added with addAlias, one-character aliases, order of the options (seeded C14-r12: a hand-written copy constructor
+		// that re-adds the groups and so loses the addAlias names). Which operations are preceded by a copy is derived from the case.
+		std::unique_ptr<Po::OptionContext> ctxp(new Po::OptionContext("ctx"));
+#define ctx (*ctxp)
+		unsigned long long ch = 1469598103934665603ull;
+		for (size_t i = 0; i != c.v.size(); ++i) { ch = (ch ^ static_cast<unsigned long long>(c.v[i])) * 1099511628211ull; }
+		unsigned opNo = 0;
 		bool stop = false;
 		while (c.more() && !stop) {
 			ll op = c.next();
+			if (((ch >> (20 + (opNo++ % 24))) & 3u) == 3u && op >= 4) {
+				if ((ch >> 50) & 1u) { std::unique_ptr<Po::OptionContext> cp(new Po::OptionContext(*ctxp)); ctxp.swap(cp); }
+				else                 { std::unique_ptr<Po::OptionContext> cp(new Po::OptionContext("other caption")); *cp = *ctxp; ctxp.swap(cp); }
+			}
 			if (op == 1) {
 				Po::OptionGroup g; getGroup(c, g);
 				guardedAdd(o, [&] { ctx.add(g); });
@@ -255,6 +268,7 @@ int main() {
 			for (Po::OptionGroup::option_iterator it = ctx.groups_[g].begin(); it != ctx.groups_[g].end(); ++it) addStr(o, (*it)->name());
 		}
 		o.add((ll)ctx.index_.size());
+		if ((ch >> 51) & 1u) { std::unique_ptr<Po::OptionContext> cp(new Po::OptionContext(*ctxp)); ctxp.swap(cp); } // the final dump is taken from a copy
 		for (Po::OptionContext::index_iterator it = ctx.index_.begin(); it != ctx.index_.end(); ++it) { addStr(o, it->first); o.add((ll)it->second); }
 		o.flush();
 	}
